@@ -39,7 +39,22 @@ var userTypes = []string{"USER_START", "USER_END", "CRED_ACQ", "CRED_REFR", "USE
 
 func genGroup(r *vlib.Rng, tsms int64, seq uint32, pid int, ses string, allowCD bool) auGroup {
 	g := auGroup{TSms: tsms}
-	switch r.Intn(10) {
+	switch r.Intn(11) {
+	case 10: // compound event whose first record is not the SYSCALL record (auditctl, SELinux, netfilter, seccomp)
+		suc := vlib.PickOne(r, []string{"yes", "no"})
+		g.Kind = "LEAD+SYSCALL"
+		g.ResTok = suc
+		g.Success = suc == "yes"
+		hdr := vlib.AuHeader(tsms, seq)
+		lead := vlib.PickOne(r, []string{
+			fmt.Sprintf("type=CONFIG_CHANGE %s auid=1000 ses=%s op=add_rule key=\"demo\" list=4 res=1", hdr, ses),
+			fmt.Sprintf("type=NETFILTER_CFG %s table=filter family=2 entries=4", hdr),
+			fmt.Sprintf("type=SECCOMP %s auid=1000 uid=1000 gid=1000 ses=%s pid=%d comm=\"demo\" exe=\"/usr/bin/demo\" sig=31 arch=c000003e syscall=2 compat=0 ip=0x7f0 code=0x0", hdr, ses, pid+1),
+		})
+		g.Lines = []string{lead,
+			fmt.Sprintf("type=SYSCALL %s arch=c000003e syscall=44 success=%s exit=1084 a0=4 a1=7ffd0a0 a2=43c a3=0 items=0 ppid=4250 pid=%d auid=1000 uid=0 gid=0 euid=0 suid=0 fsuid=0 egid=0 sgid=0 fsgid=0 tty=pts0 ses=%s comm=\"auditctl\" exe=\"/usr/sbin/auditctl\" key=(null)", hdr, suc, pid+1, ses),
+			fmt.Sprintf("type=SOCKADDR %s saddr=100000000000000000000000", hdr),
+			fmt.Sprintf("type=PROCTITLE %s proctitle=617564697463746C002D77002F6574632F706173737764", hdr)}
 	case 0, 1, 2, 3: // user-space record with every result token
 		tok := vlib.PickOne(r, []string{"success", "failed", "1", "0", ""})
 		g.Kind = vlib.PickOne(r, userTypes)
